@@ -71,13 +71,20 @@ def uniLine (id : String) (op : String) (m : List (String × String)) : String :
   match op with
   | "fixes" => return s!"id={id} fx={if Norm.current.compCast then 1 else 0}{if Norm.current.rangeChk then 1 else 0}"
   | "norm" => return s!"id={id} {showRes (wcsnormS fx (nat m "mode") dmax src)}"
-  | "reorder" => return s!"id={id} {showRes (reorderS fx dmax src)}"
-  | "compose" => return s!"id={id} {showRes (composeS fx dmax src (get m "contig" = "1"))}"
+  | "reorder" => return s!"id={id} {showRes { reorderS fx dmax src with len := 0 }}"
+  | "compose" =>
+    let r := composeS fx dmax src (get m "contig" = "1")
+    -- `*lenp` is in/out: a failing call leaves the caller's value (the source length) in place
+    return s!"id={id} {showRes (if r.ret ≠ 0 then { r with len := src.length } else r)}"
   | "fc" => return s!"id={id} {showRes (wcsfcS fx dmax src)}"
   | "towfc" =>
     let c := (parseHex (get m "c")).getD 0
     let t := towfcS dmax c
     return s!"id={id} n={iswfc c} ret={t.1} out={match t.2 with | some l => showCells l | none => "untouched"}"
+  | "composite" =>
+    let a := (parseHex (get m "a")).getD 0
+    let b := (parseHex (get m "b")).getD 0
+    return s!"id={id} c={toHex (compositeCp fx a b)}"
   | "sweep" =>
     let what := get m "what"
     let lo := (parseHex (get m "lo")).getD 0
